@@ -71,6 +71,10 @@ class RSocketClient(RSocketBase):
         self._is_closing = False
         self._is_server_alive = True
         self._update_last_keepalive()
+
+        if getattr(self, '_stream_control', None) is not None:
+            self.stop_all_streams()  # fail requests made since the previous connection ended
+
         self._reset_internals()
         self._start_tasks()
 
